@@ -346,7 +346,7 @@ def _main(mod, modname, prop, tier, seed, only, workdir, t0, no_canaries):
         "wall_s": wall,
         "violations": len(violations),
     }
-    if only is None:
+    if only is None and not os.environ.get("VERIF_NO_EVIDENCE"):
         os.makedirs(os.path.join(ROOT, "evidence"), exist_ok=True)
         with open(os.path.join(ROOT, "evidence", "%s.json" % prop), "w") as fd:
             json.dump(ev, fd, indent=1, default=str)
